@@ -10,6 +10,8 @@ mod c02;
 mod c03;
 mod c04;
 mod c05;
+mod c06;
+mod c07;
 mod c10;
 mod fixture;
 mod core;
@@ -20,13 +22,14 @@ mod instr;
 mod pools;
 mod print;
 mod refeval;
+mod refparse;
 mod rng;
 mod workload;
 
 use crate::core::{Property, Tier};
 
 fn registry() -> Vec<Property> {
-    vec![c01::PROP, c02::PROP, c03::PROP, c04::PROP, c05::PROP, c10::PROP]
+    vec![c01::PROP, c02::PROP, c03::PROP, c04::PROP, c05::PROP, c06::PROP, c07::PROP, c10::PROP]
 }
 
 fn find(id: &str) -> Property {
